@@ -538,6 +538,11 @@ def equal(ex, l, r):
         return l.t == r.t
     if isinstance(l, VStr) and isinstance(r, VStr):
         return z3.BoolVal(l.s == r.s)
+    if isinstance(l, VOpaque) and isinstance(r, VOpaque) and isinstance(l.what, tuple) and isinstance(r.what, tuple) \
+            and l.what[0] == "name" and r.what[0] == "name":
+        # x.name == y.name  <=>  x.get_base() == y.get_base()   (get_base() is Variable(self.name); dataclass equality is field-wise)
+        b_, _, _ = L.var_algebra()
+        return b_(l.what[1]) == b_(r.what[1])
     if isinstance(l, VGraph) and isinstance(r, V):
         m = ex.repo.find_method(ex.repo.resolve("y0.graph.NxMixedGraph"), "__eq__")
         return ex.truthy(ex.call_y0(m, [r], {}, self_val=l))
